@@ -167,7 +167,7 @@ L info_p8_treiber(void *arena, L what) {
 """
 
 
-def unit_source(tn, forms=None, ops=None, treiber=None):
+def unit_source(tn, forms=None, ops=None, treiber=None, exclude=()):
     """One translation unit per type.  -> (text, [op names], [(info name, has_fin)])"""
     forms = FORMS + AUTO_FORMS if forms is None else forms
     ops = ops_for(tn) if ops is None else ops
@@ -183,9 +183,11 @@ def unit_source(tn, forms=None, ops=None, treiber=None):
             infos.append((n, 0))
         for op in ops:
             n, t = body_text(tn, form, op)
+            if n in exclude:
+                continue
             out.append(t)
             opnames.append(n)
-    if treiber if treiber is not None else tn == "p8":
+    if (treiber if treiber is not None else tn == "p8") and "f_push_p8_treiber" not in exclude:
         out.append(TREIBER)
         opnames.append("f_push_p8_treiber")
         infos.append(("info_p8_treiber", 1))
@@ -352,7 +354,8 @@ def stub_call(operand, kind, size):
 def rewrite(asm):
     """Insert the stub calls.  -> (text, stats)"""
     out = []
-    stats = {"instrumented": 0, "kinds": {}, "unknown_mnemonics": set(), "skipped": 0, "split_cmpxchg": 0}
+    stats = {"instrumented": 0, "kinds": {}, "unknown_mnemonics": set(), "skipped": 0, "split_cmpxchg": 0,
+             "r11_uses": len(re.findall(r"%r11", asm))}
     pending = []
     for line in asm.split("\n"):
         s = line.strip()
@@ -417,18 +420,125 @@ def rewrite(asm):
     return "\n".join(out), stats
 
 
+# Hand-written bodies that go through the same rewriter, runtime and oracle in every run: they prove that the
+# detector fires (lost update, unlocked RMW, unlocked cmpxchg) and that correct code using other instructions or
+# mnemonics outside the vocabulary passes.  All implement `*(int *)p += a` returning the new value.
+SELFTEST_ASM = """
+  .text
+  .globl f_st_xadd
+f_st_xadd:
+  mov %esi, %eax
+  lock xadd %eax, (%rdi)
+  add %esi, %eax
+  movslq %eax, %rax
+  ret
+  .globl f_st_opaque
+f_st_opaque:
+  prefetchw (%rdi)
+  mov %esi, %eax
+  lock xadd %eax, (%rdi)
+  add %esi, %eax
+  movslq %eax, %rax
+  ret
+  .globl f_st_plainrmw
+f_st_plainrmw:
+  add %esi, (%rdi)
+  mov (%rdi), %eax
+  movslq %eax, %rax
+  ret
+  .globl f_st_loadstore
+f_st_loadstore:
+  mov (%rdi), %eax
+  add %esi, %eax
+  mov %eax, (%rdi)
+  movslq %eax, %rax
+  ret
+  .globl f_st_nolock
+f_st_nolock:
+  mov (%rdi), %eax
+1:
+  mov %eax, %edx
+  add %esi, %edx
+  cmpxchg %edx, (%rdi)
+  jne 1b
+  mov %edx, %eax
+  movslq %eax, %rax
+  ret
+  .globl f_st_preserve
+f_st_preserve:
+  push %rbx
+  mov $0x1111, %rax
+  mov $0x2222, %rcx
+  mov $0x3333, %rdx
+  mov $0x4444, %r8
+  mov $0x5555, %r9
+  mov $0x7777, %rbx
+  movq %rsi, %xmm3
+  cmp %rax, %rax
+  stc
+  mov (%rdi), %r10d
+  jnc 9f
+  jne 9f
+  cmp $0x1111, %rax
+  jne 9f
+  cmp $0x2222, %rcx
+  jne 9f
+  cmp $0x3333, %rdx
+  jne 9f
+  cmp $0x4444, %r8
+  jne 9f
+  cmp $0x5555, %r9
+  jne 9f
+  cmp $0x7777, %rbx
+  jne 9f
+  movq %xmm3, %rax
+  cmp %rsi, %rax
+  jne 9f
+  mov %esi, %eax
+  lock xadd %eax, (%rdi)
+  add %esi, %eax
+  movslq %eax, %rax
+  pop %rbx
+  ret
+9:
+  mov $-12345, %rax
+  pop %rbx
+  ret
+  .section .note.GNU-stack,"",@progbits
+"""
+# f_st_preserve: registers, RFLAGS and SSE state survive a scheduling point (stub + coroutine switches)
+SELFTEST_EXPECT = {"f_st_preserve": {None}, "f_st_xadd": {None}, "f_st_opaque": {None}, "f_st_plainrmw": {"unlocked-rmw-on-atomic-object"},
+                   "f_st_loadstore": {None, "not-linearizable"}, "f_st_nolock": {"unlocked-cmpxchg-on-atomic-object"}}
+
+
+def selftest_programs():
+    progs = []
+    for fn in sorted(SELFTEST_EXPECT):
+        for cfg in ("2x1", "2x2", "3x1"):
+            n, k = CONFIGS[cfg]
+            args = [[1, 8], [2, 16], [4, 32]]
+            progs.append({"id": "selftest/%s/%s" % (fn, cfg), "type": "i4", "form": "deref", "op": "add", "cfg": cfg,
+                          "variant": 0, "bound": -1, "obj": "info_i4_deref", "mode": 0, "init": 10, "partner": None,
+                          "selftest": fn,
+                          "threads": [[{"op": "add", "fn": fn, "arg": args[t][i], "exp": 0} for i in range(k)] for t in range(n)]})
+    return progs
+
+
 # =====================================================================================================
 # 3. building the explorer binary
 # =====================================================================================================
 def _build_unit(args):
     chibicc, include, wd, tn, src = args
-    c = os.path.join(wd, "u_%s.c" % tn)
-    with open(c, "w") as f:
-        f.write(src)
-    st, o, e = core.run_limited([chibicc, "-S", "-I" + include, "-o", os.path.join(wd, "u_%s.s" % tn), c], cwd=wd, timeout=120)
-    if st != 0:
-        return tn, "cc-fail", (o + e)[-2000:], None
-    asm = open(os.path.join(wd, "u_%s.s" % tn)).read()
+    if tn == "selftest":
+        asm = src
+    else:
+        c = os.path.join(wd, "u_%s.c" % tn)
+        with open(c, "w") as f:
+            f.write(src)
+        st, o, e = core.run_limited([chibicc, "-S", "-I" + include, "-o", os.path.join(wd, "u_%s.s" % tn), c], cwd=wd, timeout=120)
+        if st != 0:
+            return tn, "cc-fail", (o + e)[-2000:], None
+        asm = open(os.path.join(wd, "u_%s.s" % tn)).read()
     text, stats = rewrite(asm)
     rw = os.path.join(wd, "u_%s_rw.s" % tn)
     with open(rw, "w") as f:
@@ -808,14 +918,14 @@ def s64(v):
     return v - (1 << 64) if v >> 63 else v
 
 
-def program_line(p, opidx, objidx, schedule=None):
-    w = ["P", p["id"], str(objidx[p["obj"]]), str(s64(p["init"])), str(p["mode"]), str(p["bound"]), str(len(p["threads"]))]
+def program_line(p, opidx, objidx, schedule=None, mode="S", pid=None):
+    w = ["P", pid or p["id"], str(objidx[p["obj"]]), str(s64(p["init"])), str(p["mode"]), str(p["bound"]), str(len(p["threads"]))]
     for th in p["threads"]:
         w.append(str(len(th)))
         for o in th:
             w += [str(opidx[o["fn"]]), str(s64(o["arg"])), str(s64(o["exp"]))]
     if schedule is not None:
-        w += ["S", schedule]
+        w += [mode, schedule]
     return " ".join(w)
 
 
@@ -836,7 +946,7 @@ def plan(tier):
                         cfgs = [("1x2", -1), ("2x1", -1), ("2x2", -1 if v == 0 else 2), ("3x1", 3 if v == 0 else 2)]
                     else:
                         cfgs = [("1x2", -1), ("2x1", -1), ("2x2", -1), ("3x1", -1)]
-                        if v == 0 and tn in ("i1", "u2", "i4", "u8", "p8") and form in ("deref", "global", "pmember"):
+                        if v == 0:
                             cfgs.append(("3x2", 3))
                     for cfg, b in cfgs:
                         if form in AUTO_FORMS and CONFIGS[cfg][1] > 1:
@@ -903,17 +1013,21 @@ def _explore_batch(args):
     st, out, err = _run_batch((binary, [program_line(p, opidx, objidx) for p in progs], timeout))
     summ = {"status": st, "error": None, "timed_out": st == "timeout" or "\nTIMEOUT " in out, "done": [],
             "schedules": 0, "decisions": 0, "validated": 0, "distinct": 0, "by_pre": {}, "by_cfg": {}, "cas_failed": 0,
-            "livelocks": 0, "bad": {}, "nbad": {}, "samples": []}
+            "livelocks": 0, "bad": {}, "nbad": {}, "samples": [], "selftest": {}}
     if st != "timeout" and (st != 0 or "HARNESS-ERROR" in out):
         m = re.search(r"HARNESS-ERROR.*", out)
         summ["error"] = "explorer failed (status %s): %s %s" % (st, m.group(0) if m else "", err[-300:])
         return summ
     byid = {p["id"]: p for p in progs}
+    verify = []
     for pid, r in parse_output(out).items():
         if not r.get("complete"):
             continue
         p = byid[pid]
         summ["done"].append(pid)
+        if p.get("selftest"):                       # hand-written bodies: verdict sets only, not counted as coverage
+            summ["selftest"][pid] = {judge(p, h[4]) for h in r["hist"]}
+            continue
         n = int(r["stats"]["schedules"])
         summ["schedules"] += n
         summ["decisions"] += int(r["stats"]["decisions"])
@@ -930,6 +1044,7 @@ def _explore_batch(args):
             dev = judge(p, h[4])
             if dev:
                 sig = sig_of(p, dev)
+                verify.append((p, h))
                 summ["nbad"][sig] = summ["nbad"].get(sig, 0) + h[0]
                 key = (h[1], len(h[3]), p["id"])
                 if sig not in summ["bad"] or key < summ["bad"][sig][3]:
@@ -940,6 +1055,21 @@ def _explore_batch(args):
                                     "schedules": n, "by_preemptions": r["stats"]["by_pre"],
                                     "histories": [{"count": h[0], "min_preemptions": h[1], "schedule": h[3], "history": h[4]}
                                                   for h in sorted(r["hist"], key=lambda h: -h[1])[:2]]})
+    # determinism proof for every violating history: its witness schedule is replayed in a fresh process, twice,
+    # and must give the identical event trace (also identical to the one hashed during the search)
+    if verify:
+        lines = [program_line(p, opidx, objidx, h[3], "V", "%s#%d" % (p["id"], k)) for k, (p, h) in enumerate(verify)]
+        st2, out2, err2 = _run_batch((binary, lines, 600))
+        res2 = parse_output(out2) if st2 == 0 else {}
+        for k, (p, h) in enumerate(verify):
+            r2 = res2.get("%s#%d" % (p["id"], k))
+            if not r2 or not r2["hist"] or r2["hist"][0][2] != h[2] or r2["hist"][0][4] != h[4]:
+                m = re.search(r"HARNESS-ERROR.*", out2)
+                summ["error"] = "violating schedule %s of %s does not replay identically: %s" % (
+                    h[3][:200], p["id"], m.group(0) if m else (r2["hist"][0][4] if r2 and r2["hist"] else "status %s" % st2))
+                return summ
+        summ["validated"] += len(verify)
+        summ["violating_histories_replayed"] = len(verify)
     return summ
 
 
@@ -1027,18 +1157,72 @@ def describe(prog, dev, h):
             % (dev, TINFO[prog["type"]][1], prog["form"], prog["init"], ops, dev, h[3], h[1], h[4]))
 
 
+def timed_out_any(summs):
+    return any(sm["timed_out"] for sm in summs)
+
+
+def _try_body(args):
+    chibicc, include, wd, tn, form, op = args
+    if form == "treiber":
+        name, src = "f_push_p8_treiber", PRELUDE + TREIBER
+    else:
+        src, names, _ = unit_source(tn, forms=[form], ops=[op], treiber=False)
+        name = names[0]
+    c = os.path.join(wd, "try_%s.c" % name)
+    with open(c, "w") as f:
+        f.write(src)
+    st, o, e = core.run_limited([chibicc, "-cc1", "-I" + include, "-cc1-input", c, "-cc1-output", c + ".s", c], cwd=wd, timeout=60)
+    return name, tn, form, op, st, src, (o + e)[-600:]
+
+
+def bisect_rejected(ctx, wd, tn):
+    """A generated unit did not compile: find the single bodies the compiler rejects (each is a finding)."""
+    cases = [(ctx.chibicc, ctx.include, wd, tn, form, op) for form in FORMS + AUTO_FORMS for op in ops_for(tn)]
+    if tn == "p8":
+        cases.append((ctx.chibicc, ctx.include, wd, tn, "treiber", "push"))
+    bad = set()
+    for name, tn, form, op, st, src, msg in core.pmap(_try_body, cases):
+        if st != 0:
+            bad.add(name)
+            how = "crash-signal-%d" % -st if isinstance(st, int) and st < 0 else "rejected-by-compiler"
+            ctx.violation("C16|%s|%s|%s" % (family(op), form, how),
+                          "valid body %s (%s on _Atomic %s via %s) is not compiled: status %s: %s" % (name, op, TINFO[tn][1], form, st, msg.strip()[-300:]),
+                          files={"body.c": src},
+                          replay='$CHIBICC -cc1 -I"$CHIBICC_DIR/include" -cc1-input body.c -cc1-output body.s body.c >/dev/null 2>&1 && exit 0; exit 1')
+    return bad
+
+
 def run(ctx):
+    import time
     wd = ctx.mkdir("c16")
     tier = ctx.tier
+    t_start = time.time()
     # ---- generate and build -----------------------------------------------------------------------
     units = {}
     for tn in [t[0] for t in TYPES]:
         units[tn] = unit_source(tn)
-    try:
-        binary, opidx, objidx, rstats = build_binary(ctx.chibicc, ctx.include, wd, units)
-    except CompileFailure as e:
-        # a valid generated body rejected by the compiler is a finding; bisecting to single bodies
-        raise core.HarnessError("chibicc rejects generated unit %s: %s" % (e.tn, e.msg))
+    units["selftest"] = (SELFTEST_ASM, sorted(SELFTEST_EXPECT), [])
+    rejected = set()
+    for attempt in range(len(TYPES) + 1):
+        try:
+            binary, opidx, objidx, rstats = build_binary(ctx.chibicc, ctx.include, wd, units)
+            break
+        except CompileFailure as e:
+            # a valid generated body rejected by the compiler is a finding of its own; continue without it
+            bad = bisect_rejected(ctx, wd, e.tn)
+            if not bad:
+                raise core.HarnessError("chibicc rejects unit %s but every body alone compiles: %s" % (e.tn, e.msg))
+            rejected |= bad
+            units[e.tn] = unit_source(e.tn, exclude=rejected)
+    else:
+        raise core.HarnessError("generated units keep failing to compile")
+    st_stats = rstats.pop("selftest")
+    if "prefetchw" not in st_stats["unknown_mnemonics"] or st_stats["split_cmpxchg"] != 1:
+        raise core.HarnessError("rewriter self-test: vocabulary/split handling changed: %s" % st_stats)
+    ctx.cover(bodies_rejected_by_compiler=len(rejected), build_s=round(time.time() - t_start, 1))
+    if any(s["r11_uses"] and s["split_cmpxchg"] for s in rstats.values()):
+        raise core.HarnessError("the compiler now uses %r11, which the split of an unlocked cmpxchg needs as scratch register")
+    ctx.cover(compiler_uses_of_r11=sum(s["r11_uses"] for s in rstats.values()))
     unknown = sorted({m for s in rstats.values() for m in s["unknown_mnemonics"]})
     kinds = {}
     for s in rstats.values():
@@ -1051,7 +1235,9 @@ def run(ctx):
         raise core.HarnessError("vacuous: no locked read-modify-write instruction in any emitted body")
 
     # ---- explore ----------------------------------------------------------------------------------
-    progs = plan(tier)
+    progs = [p for p in plan(tier) if all(o["fn"] in opidx for th in p["threads"] for o in th) and p["obj"] in objidx]
+    progs += selftest_programs()
+    t_explore = time.time()
     byid = {p["id"]: p for p in progs}
     if len(byid) != len(progs):
         raise core.HarnessError("duplicate program ids")
@@ -1064,6 +1250,7 @@ def run(ctx):
     schedules = decisions = validated = distinct = cas_failed = livelocks = 0
     by_pre, cfgcount, bad, nbad = {}, {}, {}, {}
     timed_out = False
+    vrep = 0
     for sm in summs:
         done.update(sm["done"])
         timed_out = timed_out or sm["timed_out"]
@@ -1078,6 +1265,19 @@ def run(ctx):
         for sig, w in sm["bad"].items():
             if sig not in bad or w[3] < bad[sig][3]:
                 bad[sig] = w
+        vrep += sm.get("violating_histories_replayed", 0)
+    ctx.cover(explore_s=round(time.time() - t_explore, 1))
+    # self-test: the detector must fire on the hand-written broken bodies and stay quiet on the correct ones
+    st_seen = {}
+    for sm in summs:
+        for pid, devs in sm["selftest"].items():
+            st_seen.setdefault(byid[pid]["selftest"], set()).update(devs)
+    for fn, expect in SELFTEST_EXPECT.items():
+        if fn in st_seen and st_seen[fn] != expect:
+            raise core.HarnessError("self-test body %s: expected verdicts %s, got %s" % (fn, expect, st_seen[fn]))
+        if fn not in st_seen and not timed_out_any(summs):
+            raise core.HarnessError("self-test body %s was not explored" % fn)
+    ctx.cover(selftest_bodies_verified=len(st_seen))
     if timed_out or len(done) < len(progs):
         ctx.incomplete("deadline: %d of %d programs explored completely" % (len(done), len(progs)))
     if schedules == 0 or distinct < 2:
@@ -1118,9 +1318,8 @@ def run(ctx):
         rw = open(os.path.join(rwd, "u_%s_rw.s" % tn)).read()
         ctx.violation(sig, describe(p, dev, h) + " [%d violating schedules in this class]" % nbad[sig],
                       files=replay_files(p, sig, dev, h, src, asm, rw, r1["trace"]), replay=REPLAY_SH)
-        # ctx.violation counts one case per call; make the count meaningful
     ctx.cover(states=schedules, transitions=decisions, traces_validated_against_impl=validated,
-              programs=len(done), distinct_histories_judged=distinct, livelocked_schedules=livelocks,
+              programs=len(done), distinct_histories_judged=distinct, livelocked_schedules=livelocks, violating_histories_replayed_identically=vrep,
               schedules_by_preemptions={str(k): by_pre[k] for k in sorted(by_pre)}, schedules_by_config=cfgcount,
               schedules_with_failed_cas=cas_failed, violating_schedules_by_sig=nbad)
     for sm in summs[:: max(1, len(summs) // 5)][:5]:
@@ -1132,7 +1331,10 @@ def run(ctx):
                "thread's stack, plus the boundary between two operations of one thread; private stack accesses commute")
     ctx.assume("at most 3 threads and 6 operations per program; operands are fixed per program (values chosen so that "
                "C11 defines every result and so that any lost or reordered update changes a return value or the final value)")
-    ctx.assume("gcc assembles the rewritten output; the assembler, linker and CPU are trusted")
+    ctx.assume("gcc assembles the rewritten output; the assembler, linker and CPU are trusted; operands that mention "
+               "%r11 or a segment register are not instrumented (counted in rewriter_unmodelled_operands)")
+    ctx.assume("a retry loop that runs for 10^4 scheduling points is a livelock verdict; exploration of that program "
+               "stops at the first such schedule")
 
 
 if __name__ == "__main__":
